@@ -24,6 +24,7 @@ type Config struct {
 	Tracks             []TrackSpec `json:"tracks"`
 	SegmentCount       int         `json:"segment_count"`
 	SegmentMinDuration int64       `json:"segment_min_duration_ns"`
+	NTPZoneMin         int         `json:"ntp_zone_min,omitempty"` // zone offset (minutes) of the NTP values passed to Write*
 	PartMinDuration    int64       `json:"part_min_duration_ns,omitempty"`
 	SegmentMaxSize     uint64      `json:"segment_max_size,omitempty"`
 	Disk               bool        `json:"disk,omitempty"`
@@ -104,6 +105,10 @@ type WriteArgs struct {
 func ArgsOf(cfg Config, i int, op Op) WriteArgs {
 	spec := cfg.Tracks[op.Track]
 	a := WriteArgs{NTP: time.Unix(0, op.NTP).UTC()}
+	if cfg.NTPZoneMin != 0 {
+		// the same instant expressed in another zone (time.Now() on a non-UTC machine)
+		a.NTP = a.NTP.In(time.FixedZone("", cfg.NTPZoneMin*60))
+	}
 	size := op.Size
 	if spec.IsVideo() {
 		a.Units = BuildVideo(spec.Codec, op.Kind, op.InBand-1, op.Tmpl, Marker(i, 0, size))
